@@ -77,6 +77,17 @@ func buildTwo(c twoCfg) (*vWorld, int, int) {
 	}
 	if !c.emptyB {
 		w.symPods("B.", b, 1, 1, false, -3*w.cpuPerNode, false)
+		if c.affinityFormsB && c.nA > 0 && verifChoice("B.p0.onNodeOfA", 2) == 1 {
+			// nothing stops another group's pod from running on one of A's nodes; it must not
+			// count for A (not for utilisation, not for "is this node empty")
+			bp := w.pods[len(w.pods)-1]
+			for i, n := range w.nodes {
+				if n.group == a {
+					w.movePod(bp, i, false)
+					break
+				}
+			}
+		}
 		if c.affinityFormsB && verifChoice("B.p0.viaAffinity", 2) == 1 {
 			// select B through required node affinity and explicitly exclude A's value
 			p := w.pods[len(w.pods)-1].obj
